@@ -662,7 +662,7 @@ class Envelope:
                 assert op.shape == (self.dimensions, self.dimensions)
 
             # Produce einsum str
-            einsum = "eacf,abcd,gbhd->egfh"
+            einsum = "eafc,abcd,gbhd->egfh"
             # Compute probabilities
             probabilities = []
             for op in operators:
